@@ -162,4 +162,51 @@ def CopyOfL : List Entry → List Entry → Prop
   | _ :: _, [] => False
 end
 
+/-! ### extras (Entry.Extra / Entry.Exts)
+
+The resolver model carries no `Extra` / `Exts` (they play no part in the schema tree).  What the
+property says about them — a copy has the grouping node's own values, plus what the `uses`
+statement adds, and nothing of any other use — is stated over a small model of its own: a node
+carries the (keyword, argument) pairs of `Entry.Extra` in order of arrival and its extension
+statements; `usesEntry` and `mergeKids` are the two places of the Go code that touch them
+(`ToEntry`'s uses case: `ToEntry(g).dup()` then `addExtraKeywordsToLeafEntry` and the deferred
+`Exts` append; `merge`: `v.Exts = append(v.Exts, oe.Exts...)`, `v.Extra[k] = append(v.Extra[k],
+oe.Extra[k]...)` for every direct child `v`).  The tie to the Go code is the runner's Go-side
+oracle, which checks exactly this law (and that no backing array is shared); drv_res does not
+compute it. -/
+
+structure Extras where
+  extra : List (String × String) := []
+  exts : List (String × String) := []
+  deriving Repr, DecidableEq, Inhabited
+
+namespace Extras
+/-- `Entry.Extra[k]`: the arguments recorded under keyword `k`, in order. -/
+def vals (x : Extras) (k : String) : List String := (x.extra.filter (·.1 == k)).map (·.2)
+/-- What Go's per-key `append` and the `Exts` append do, for all keys at once. -/
+def append (a b : Extras) : Extras := { extra := a.extra ++ b.extra, exts := a.exts ++ b.exts }
+end Extras
+
+/-- A node with its extras and its children. -/
+inductive XEntry where
+  | mk (name : String) (x : Extras) (kids : List XEntry)
+  deriving Repr, Inhabited
+
+namespace XEntry
+def name : XEntry → String | .mk n _ _ => n
+def x : XEntry → Extras | .mk _ x _ => x
+def kids : XEntry → List XEntry | .mk _ _ k => k
+end XEntry
+
+/-- Go, `ToEntry` of `uses` with extras `u` of a grouping whose own entry is `g`: a copy of `g`
+whose root carries `g`'s own extras followed by those of the uses statement. -/
+def usesEntry (g : XEntry) (u : Extras) : XEntry := .mk g.name (g.x.append u) g.kids
+
+/-- Go, `merge`: every direct child of `oe` is copied and gets `oe`'s extras appended; whatever
+lies below a child is copied as it is. -/
+def mergeKids (oe : XEntry) : List XEntry := oe.kids.map fun v => .mk v.name (v.x.append oe.x) v.kids
+
+/-- What one `uses` (with extras `u`) of the grouping with entry `g` adds to the using node. -/
+def usesInstance (g : XEntry) (u : Extras) : List XEntry := mergeKids (usesEntry g u)
+
 end Goyang.Spec.Uses
